@@ -201,6 +201,13 @@ pub fn check(case: &FlagCase, probe: &Probe) -> Verdict {
         vec!["-e".into(), "nosuch".into()],
         vec!["-e".into(), "Keep-Sorted".into()],
         vec!["-d".into(), "".into()],
+        // the same misuse around the `list` sub-command, in every order
+        vec!["-e".into(), "keep-sorted".into(), "list".into(), "-d".into(), "line-count".into()],
+        vec!["-d".into(), "check-lua".into(), "list".into(), "-e".into(), "affects".into()],
+        vec!["list".into(), "-e".into(), "keep-unique".into(), "-d".into(), "keep-unique".into()],
+        vec!["--enable=line-pattern".into(), "--disable=check-ai".into(), "list".into()],
+        vec!["list".into(), "-e".into(), "nosuch".into()],
+        vec!["-d".into(), "sorted".into(), "list".into()],
     ];
     for args in &rejects {
         probe.evals(1);
@@ -213,6 +220,9 @@ pub fn check(case: &FlagCase, probe: &Probe) -> Verdict {
         }
         if parse_diags(&o.stderr).map(|d| !d.is_empty()).unwrap_or(false) {
             return Verdict::Fail(show("invalid flag usage still produced a diagnostics report", args, &o));
+        }
+        if o.stdout.contains("is_content_modified") {
+            return Verdict::Fail(show("invalid flag usage still printed a listing", args, &o));
         }
         probe.class("rejected-usage");
     }
@@ -263,7 +273,7 @@ pub fn case_strategy(all_subsets: bool) -> BoxedStrategy<FlagCase> {
 }
 
 pub fn run(run: &mut Run) {
-    run.rule = "random trees: 1..13 single-validator blocks (each of the seven validators violating or satisfied, error or warning severity) spread over 1..3 files in random order, all touched by a new-file git diff so affects is live (satisfied links point at the same file or at a file holding nothing but a named block), check-ai answered by a recording fake endpoint, check-lua by echo/nil scripts; per tree the unrestricted run is compared with construction and then every chosen subset S is run as -d S and as -e S (quick: all singletons, all co-singletons, the full set and 6 random subsets; thorough: all 127 non-empty subsets) in varying flag spellings (short, long=, mixed, repeated, reversed), plus 6 rejected usages. Non-trivial tree = some validator owns exactly one block and at least three validators report.".into();
+    run.rule = "random trees: 1..13 single-validator blocks (each of the seven validators violating or satisfied, error or warning severity) spread over 1..3 files in random order, all touched by a new-file git diff so affects is live (satisfied links point at the same file or at a file holding nothing but a named block), check-ai answered by a recording fake endpoint, check-lua by echo/nil scripts; per tree the unrestricted run is compared with construction and then every chosen subset S is run as -d S and as -e S (quick: all singletons, all co-singletons, the full set and 6 random subsets; thorough: all 127 non-empty subsets) in varying flag spellings (short, long=, mixed, repeated, reversed), plus 12 rejected usages (six of them around the `list` sub-command). Non-trivial tree = some validator owns exactly one block and at least three validators report.".into();
     run.assumptions = vec!["hash-map iteration order inside blockwatch decides which block is visited last; it is sampled by repetition, not controlled".into()];
     let thorough = run.tier == crate::engine::Tier::Thorough;
     run.shrink_iters = 40;
